@@ -10,6 +10,7 @@
 //	c.Timeout                                               bound of every later wait (a miss returns ErrTimeout;
 //	                                                        the connection stays usable, nothing is lost)
 //	c.Close()  c.CloseWrite() (TCP half-close)  c.Abort() (TCP reset, no TIME_WAIT)
+//	rtspc.DialRcvBuf(addr, timeout, rcvbuf) + c.StopReading() / c.ResumeReading()   a client that stalls the server's writes
 //
 //	raw := c.Build(method, url, headers, body)   next CSeq, Session echo, Content-Length; headers may
 //	                                             override "CSeq" / "Session" (value rtspc.Omit leaves a header out)
@@ -50,6 +51,7 @@ import (
 	"strconv"
 	"strings"
 	"sync"
+	"syscall"
 	"time"
 
 	"github.com/gorilla/websocket"
@@ -278,6 +280,8 @@ type Client struct {
 	cap     []byte
 	msgEnds []int // ws: offsets in cap where a message ends
 	msgSeen int   // ws: messages fully consumed by the reader
+	hold    bool  // StopReading
+	resume  chan struct{}
 	rerr    error
 	notify  chan struct{}
 	pos     int
@@ -292,15 +296,27 @@ type Client struct {
 }
 
 // Dial opens a TCP connection.
-func Dial(addr string, timeout time.Duration) (*Client, error) {
-	conn, err := net.DialTimeout("tcp", addr, timeout)
+func Dial(addr string, timeout time.Duration) (*Client, error) { return DialRcvBuf(addr, timeout, 0) }
+
+// DialRcvBuf is Dial with SO_RCVBUF set before connecting (0 = system default),
+// for a client that is meant to stall the server's writes (see StopReading).
+func DialRcvBuf(addr string, timeout time.Duration, rcvbuf int) (*Client, error) {
+	d := net.Dialer{Timeout: timeout}
+	if rcvbuf > 0 {
+		d.Control = func(network, address string, rc syscall.RawConn) error {
+			return rc.Control(func(fd uintptr) {
+				syscall.SetsockoptInt(int(fd), syscall.SOL_SOCKET, syscall.SO_RCVBUF, rcvbuf)
+			})
+		}
+	}
+	conn, err := d.Dial("tcp", addr)
 	if err != nil {
 		return nil, err
 	}
 	if tc, ok := conn.(*net.TCPConn); ok {
 		tc.SetNoDelay(true)
 	}
-	c := &Client{Timeout: timeout, conn: conn, notify: make(chan struct{}, 1), UserAgent: "verif-rtspc"}
+	c := &Client{Timeout: timeout, conn: conn, notify: make(chan struct{}, 1), resume: make(chan struct{}, 1), UserAgent: "verif-rtspc"}
 	go c.pumpTCP()
 	return c, nil
 }
@@ -331,9 +347,35 @@ func (c *Client) wake() {
 	}
 }
 
+// StopReading makes the background reader stop taking bytes off the socket (at
+// most one read that is already in progress still completes): the peer's writes
+// fill the socket buffers and then block. ResumeReading undoes it. TCP only.
+func (c *Client) StopReading() { c.mu.Lock(); c.hold = true; c.mu.Unlock() }
+
+// ResumeReading lets the background reader continue.
+func (c *Client) ResumeReading() {
+	c.mu.Lock()
+	c.hold = false
+	c.mu.Unlock()
+	c.wake()
+	select {
+	case c.resume <- struct{}{}:
+	default:
+	}
+}
+
 func (c *Client) pumpTCP() {
 	buf := make([]byte, 64<<10)
 	for {
+		for {
+			c.mu.Lock()
+			h := c.hold
+			c.mu.Unlock()
+			if !h {
+				break
+			}
+			<-c.resume
+		}
 		n, err := c.conn.Read(buf)
 		c.mu.Lock()
 		if n > 0 {
@@ -388,7 +430,9 @@ func (c *Client) Close() error {
 	if c.ws != nil {
 		return c.ws.Close()
 	}
-	return c.conn.Close()
+	err := c.conn.Close()
+	c.ResumeReading() // a held reader runs into the closed socket and ends
+	return err
 }
 
 // Abort closes a TCP connection with a reset (SO_LINGER 0): the peer sees
@@ -397,7 +441,9 @@ func (c *Client) Close() error {
 func (c *Client) Abort() error {
 	if tc, ok := c.conn.(*net.TCPConn); ok {
 		tc.SetLinger(0)
-		return tc.Close()
+		err := tc.Close()
+		c.ResumeReading()
+		return err
 	}
 	return c.Close()
 }
